@@ -921,6 +921,23 @@ func (p *posProver) positive(v ssa.Value, at *ssa.BasicBlock, d int) bool {
 			return ok && cnt > 0
 		}
 		return p.fail("load %s", x.String())
+	case *ssa.Call:
+		// the result of a helper of the module (`sweepIntervalFor(within)`): positive at every return
+		if h := x.Call.StaticCallee(); h != nil && h.Blocks != nil && p.a.fnInModule(h) && h.Signature.Results().Len() == 1 {
+			n := 0
+			for _, b := range h.Blocks {
+				ret, ok := b.Instrs[len(b.Instrs)-1].(*ssa.Return)
+				if !ok || b == h.Recover || len(ret.Results) != 1 {
+					continue
+				}
+				n++
+				if !p.positive(ret.Results[0], b, d+1) {
+					return p.fail("the result of %s at %s", fname(h), p.a.pos(ret.Pos()))
+				}
+			}
+			return n > 0
+		}
+		return p.fail("call %s", x.String())
 	case *ssa.Parameter:
 		fn := x.Parent()
 		idx := -1
